@@ -122,7 +122,8 @@ FASTOR_INLINE void _transpose<float,3,3>(const float * FASTOR_RESTRICT a, float 
     // 5 OPS
     __m128 row0 = _mm_loadu_ps(a);
     __m128 row1 = _mm_loadu_ps(a+3);
-    __m128 row2 = _mm_loadu_ps(a+6);
+    // only a[6..8] belong to the matrix: a full-width load would read a[9]
+    __m128 row2 = _mm_loadul3_ps(a+6);
 
     __m128 T0   = _mm_unpacklo_ps(row0,row1);
     __m128 T1   = _mm_unpackhi_ps(row0,row1);
@@ -133,7 +134,8 @@ FASTOR_INLINE void _transpose<float,3,3>(const float * FASTOR_RESTRICT a, float 
 
     _mm_storeu_ps(out,row0);
     _mm_storeu_ps(out+3,row1);
-    _mm_storeu_ps(out+6,row2); // out of range for out[9]
+    // only out[6..8] belong to the result: a full-width store would write out[9]
+    _mm_storeul3_ps(out+6,row2);
 #else
     // 3 OPS
     // gcc/clang emit vpermsps tht operate on (%rsp)
